@@ -218,6 +218,7 @@ func (r *Recorder) qDeq(wd *World, q, sub int) {
 		s := r.wd.subs[sub]
 		if purging {
 			s.Purged = seq
+			s.PurgeTask = me
 		} else {
 			s.Deq = seq
 		}
@@ -236,6 +237,7 @@ func (r *Recorder) qPurged(wd *World, q int) {
 	r.qslot(q)
 	for _, sub := range r.inq[q] {
 		r.wd.subs[sub].Purged = seq
+		r.wd.subs[sub].PurgeTask = simrt.CurID()
 		r.qevs = append(r.qevs, QEv{Seq: seq, Q: q, Sub: sub, K: 3, W: wd.cidx})
 		r.probes[pbPurgeRemoved]++
 	}
@@ -278,6 +280,7 @@ func (r *Recorder) adDeqNoAck(a *simAdapter, sub int) {
 func (r *Recorder) adPurged(a *simAdapter, sub int) {
 	if sub >= 0 && sub < len(r.wd.subs) {
 		r.wd.subs[sub].Purged = simrt.Step()
+		r.wd.subs[sub].PurgeTask = simrt.CurID()
 		r.probes[pbPurgeRemoved]++
 	}
 }
